@@ -29,8 +29,11 @@ def cases(tier, seed):
         if not F["md"] and r.random() < 0.7:
             um = set()
             F["md"] = [gen.gen_metadata(r, um) for _ in range(r.choice([1, 2]))]
-        natural = ["bad_root_metadata", "bad_node_metadata", "collision_with_body", "renamed_node_over"]
+        natural = ["bad_root_metadata", "bad_node_metadata", "collision_with_body", "collision_with_body_over", "renamed_node_over"]
         yield {"trees": {"F": F, "R": R, "O": other}, "append": ap, "natural": natural, "maxk": 60 if tier == "quick" else 200}
+
+
+OVER_NATURALS = ("renamed_node_over", "collision_with_body_over")      # natural failures tried in append-over mode
 
 
 def node_table(path):
@@ -146,13 +149,17 @@ def run_both(drv, case):
                         break
                 if not done:
                     return None, None, None
-            if natural == "collision_with_body":
-                # a new child whose name is that of a dataset / group the node's own body holds in the file
+            if natural in ("collision_with_body", "collision_with_body_over"):
+                # a new child whose name is that of a dataset / group the node's own body holds in the file (plain append) —
+                # or, in append-over, that the node's body WILL hold once the runtime node has replaced the file's
+                over = natural.endswith("_over")
+                if over:
+                    a = {"target": [], "mode": "ao", "tree": True, "emdpath": None}
                 done = False
                 for p in sorted(idx):
                     if not p or p not in fpaths:
                         continue
-                    body = [b for b, _ in before[("R0",) + p]["b"] if b != "metadatabundle"]
+                    body = [b for b, _ in (alpha.node_info(idx[p])["b"] if over else before[("R0",) + p]["b"]) if b != "metadatabundle"]
                     used = set(idx[p]._branch._dict.keys())
                     body = [b for b in body if b not in used]
                     if body:
@@ -205,12 +212,12 @@ def run_both(drv, case):
         points += [(k, None) for k in range(min(total, case["maxk"]))]
         for k, nat in points:
             work, inj, exc = attempt(k, nat)
-            na = mutation_level(work, inj, ((not over) or nat is not None) and nat != "renamed_node_over")
+            na = mutation_level(work, inj, ((not over) or nat is not None) and nat not in OVER_NATURALS)
             if exc is None:
                 continue
             after, w = node_table(work)
             v = {"k": k if nat is None else nat, "what": (inj.log[k] if k is not None and k < len(inj.log) else nat),
-                 "over": (over and nat is None) or nat == "renamed_node_over", "natural": nat}
+                 "over": (over and nat is None) or nat in OVER_NATURALS, "natural": nat}
             if after is None:
                 v["file_unreadable"] = True
                 verdicts.append(v); continue
@@ -291,7 +298,7 @@ def known_match(case, fail, finding):
         # does not reach.
         if not fail.get("append_over"):
             return False
-        if fail.get("natural") in ("renamed_node_over", "collision_with_body") and any(kind in ("lost", "unreadable", "scratch", "file_unreadable") for kind, _ in fail["damage"]):
+        if fail.get("natural") in ("renamed_node_over", "collision_with_body", "collision_with_body_over") and any(kind in ("lost", "unreadable", "scratch", "file_unreadable") for kind, _ in fail["damage"]):
             # a renamed node is refused BEFORE the old group is parked, and a NEW child named like an object of its parent's
             # body is refused when its group is created (no node is parked at that moment): nothing can be lost and no scratch group can exist
             # (nodes replaced earlier in the same save have their new content: that part is this finding)
